@@ -532,7 +532,7 @@ def r18_10(ctx: Ctx):
     reachable only through the skippable step (R18.5)."""
     from .common import foreign_history_writes
 
-    return foreign_history_writes(ctx, "R18.10", "the history of a deme that sleeps (or has stopped) changes although it ran no metaepoch")
+    return foreign_history_writes(ctx, "R18.10", "the history of a deme that sleeps (or has stopped) changes although it ran no metaepoch", own_step_edits=False)
 
 
 def r18_6(ctx: Ctx):
